@@ -90,3 +90,31 @@ theorem toplevel_iff (d : J) : ∀ p ∈ allSchemas d, isTopLevel p.1 = true ↔
   split <;> simp_all
 
 end C12
+
+namespace C11
+open J Spec.Index
+
+/-- the keys of the entries of `refsOf ps` are a sublist of the keys of `ps` -/
+theorem refsOf_keys_sublist (ps : List Pos) :
+    ((refsOf ps).map (·.1)).Sublist (ps.map fun p => key p.1) := by
+  induction ps with
+  | nil => simp [refsOf]
+  | cons p ps ih =>
+    unfold refsOf at ih ⊢
+    simp only [List.filterMap_cons, List.map_cons]
+    split
+    · rename_i h; split at h <;> simp_all
+    · rename_i b h
+      split at h
+      · cases h; exact ih.cons_cons (key p.1)
+      · cases h
+
+/-- "each with its multiplicity" survives the map for the schema kind: in a document with distinct object keys, no two
+    schema `$ref`s are filed under the same key, so the Go map `references.schemas` (and the schema part of
+    `allRefs`) holds one entry per `$ref` of `refs_exact`'s right-hand side -/
+theorem schema_ref_keys_distinct (d : J) (hn : C12.NodupKeys d)
+    (hpk : ∀ kv ∈ d.getObj "paths", Doc.isPathKey kv.1 = true) :
+    ((refsOf (allSchemas d)).map (·.1)).Nodup :=
+  (refsOf_keys_sublist _).nodup (C12.keys_distinct d hn hpk)
+
+end C11
